@@ -148,7 +148,12 @@ def check_contract(cdef, fn, kind, owner, inputs, chain=None):
             bitcoin.SelectParams('mainnet')
 
 
+BUILD_HOOKS = {}
+
+
 def _check(cdef, fn, kind, owner, inputs, chain):
+    if isinstance(inputs, dict) and '__build__' in inputs:
+        inputs = BUILD_HOOKS[inputs['__build__']](inputs, chain)
     node, params, ghosts, clauses, ret = parse_clauses(cdef.fn)
     env = dict(cdef.fn.__globals__)
     for nm in ('implies', 'forall', 'exists', 'ite', 'typeis', 'unfold', 'use'):
@@ -159,6 +164,14 @@ def _check(cdef, fn, kind, owner, inputs, chain):
         if nm not in inputs:
             return {'verdict': 'error', 'detail': 'missing input %s' % nm}
         vals[nm] = decode_value(inputs[nm])
+    # inputs given as None that a `requires(x == expr)` clause defines are derived from it
+    for k, call in clauses:
+        if k == 'requires' and isinstance(call.args[0], ast.Compare) and len(call.args[0].ops) == 1 \
+                and isinstance(call.args[0].ops[0], ast.Eq) and isinstance(call.args[0].left, ast.Name) \
+                and vals.get(call.args[0].left.id, 0) is None and inputs.get(call.args[0].left.id, 0) is None:
+            e2 = dict(env)
+            e2.update(vals)
+            vals[call.args[0].left.id] = ev(call.args[0].comparators[0], e2)
     env.update(vals)
     pre_env = dict(env)
     for nm in vals:
